@@ -465,7 +465,9 @@ pub const C04H: ConcCheck = ConcCheck { sub: "conc-helpers", mix: Mix::Helpers, 
 pub const C04M: ConcCheck = ConcCheck { sub: "conc-treemove", mix: Mix::TreeMove, ..C04C };
 pub const C04U: ConcCheck = ConcCheck { sub: "conc-compute", mix: Mix::Compute, ..C04C };
 pub const C04W: ConcCheck = ConcCheck { sub: "conc-crowd", mix: Mix::Crowd, max_threads: 130, ..C04C };
-pub const C04_ALL: [&ConcCheck; 8] = [&C04C, &C04R, &C04T, &C04Z, &C04D, &C04M, &C04U, &C04H];
+pub const C04F: ConcCheck = ConcCheck { sub: "conc-first", mix: Mix::FirstOps, max_threads: 4, ..C04C };
+pub const C04L: ConcCheck = ConcCheck { sub: "conc-long-mixed", mix: Mix::LongMixed, max_threads: 6, max_ops: 10, ..C04C };
+pub const C04_ALL: [&ConcCheck; 9] = [&C04C, &C04R, &C04T, &C04Z, &C04D, &C04M, &C04U, &C04F, &C04H];
 
 /* ------------------------------- first operations on an unallocated map ------------------------------- */
 
@@ -610,10 +612,20 @@ fn c13_judge(prog: &Prog, out: &ConcOut) -> Result<(bool, Vec<(&'static str, u64
 
 pub const C13: ConcCheck = ConcCheck { asked: "C13", sub: "retain", mix: Mix::Retain, max_threads: 3, max_ops: 3, opts: C01.opts, judge: c13_judge, mk_probe: NO_PROBE };
 
+/// bulk removals racing one and several consecutive resizes (a removal that waited for a bin lock
+/// across a whole resize must follow the forwarding markers generation by generation), and racing
+/// the first operations on an unallocated map
+pub const C13Z: ConcCheck = ConcCheck { sub: "retain-resize", mix: Mix::Resize, ..C13 };
+pub const C13F: ConcCheck = ConcCheck { sub: "retain-first", mix: Mix::FirstOps, max_threads: 4, ..C13 };
+pub const C13M: ConcCheck = ConcCheck { sub: "retain-long", mix: Mix::LongReaders, max_threads: 6, max_ops: 10, ..C13 };
 fn c13_shard(ctx: &Ctx, out: &mut ShardOut) {
     let pool = Pool::new();
     let n = ctx.share(ctx.by_tier(1000, 15_000)) as u32;
     C13.run(ctx, &pool, 13, n, &budget_for(ctx.tier, ctx.shard_seed(79)), out);
+    C13Z.run(ctx, &pool, 14, ctx.share(ctx.by_tier(320, 6_000)) as u32, &budget_for(ctx.tier, ctx.shard_seed(70)), out);
+    C13F.run(ctx, &pool, 15, ctx.share(ctx.by_tier(240, 4_000)) as u32, &budget_for(ctx.tier, ctx.shard_seed(71)), out);
+    let lb = Budget { single: 0, double: 0, coarse2: 0, tapes: ctx.by_tier(24, 200) as usize, tape_seed: ctx.shard_seed(72), triple: 0, stagger: 0 };
+    C13M.run(ctx, &pool, 16, ctx.share(ctx.by_tier(128, 4_000)) as u32, &lb, out);
     // sequential agreement with the standard retain is part of C02's operation set; here a small
     // dedicated slice so that C13 does not depend on another check
     let or = crate::seq::Oracles { returns: true, ..Default::default() };
@@ -631,7 +643,12 @@ fn c13_replay(sub: &str, case: &Value) -> Result<(), CaseFail> {
         return crate::seq::run_map_case(&c, crate::seq::Oracles { returns: true, ..Default::default() }).map(|_| ()).map_err(|f| CaseFail { prop: "C13".into(), msg: f.msg });
     }
     let pool = Pool::new();
-    C13.replay(&pool, case, &budget_for(Tier::Thorough, 1))
+    match sub {
+        "retain-resize" => C13Z.replay(&pool, case, &budget_for(Tier::Thorough, 1)),
+        "retain-first" => C13F.replay(&pool, case, &budget_for(Tier::Thorough, 1)),
+        "retain-long" => C13M.replay(&pool, case, &Budget { single: 0, double: 0, coarse2: 0, tapes: 200, tape_seed: 1, triple: 0, stagger: 0 }),
+        _ => C13.replay(&pool, case, &budget_for(Tier::Thorough, 1)),
+    }
 }
 
 /* ------------------------------- C18 (concurrent part) ------------------------------- */
